@@ -925,3 +925,177 @@ theorem write_pure (sep : Char) (naRep : Str) (ts : List TableVal) :
     writeCsv sep naRep ts = unlines (ts.flatMap (tableLines sep naRep)) := rfl
 
 end Pdt.C01
+
+namespace Pdt.C01
+open Pdt Pdt.Reader Pdt.Represent Pdt.Write
+
+/-! ## 9. the executable well-formedness check is sound -/
+
+theorem plainTextb_sound (s : Str) (h : plainTextb s = true) : PlainText s := by
+  unfold plainTextb at h
+  simp only [Bool.and_eq_true, Bool.not_eq_true', Option.isNone_iff_eq_none] at h
+  exact ⟨h.1, h.2⟩
+
+theorem naRepOKb_sound (naRep : Str) (h : naRepOKb naRep = true) : NaRepOK naRep := by
+  unfold naRepOKb at h
+  simp only [Bool.and_eq_true, Bool.not_eq_true', List.isEmpty_eq_false_iff] at h
+  exact ⟨h.1.1, h.1.2, h.2⟩
+
+theorem numOKb_sound (ext : Ext) (tok : Str) (h : numOKb ext tok = true) : NumOK ext tok := by
+  unfold numOKb at h
+  simp only [Bool.and_eq_true, bne_iff_ne, ne_eq, Bool.not_eq_true', beq_iff_eq] at h
+  exact ⟨h.1.1, h.1.2, h.2⟩
+
+theorem intOKb_sound (ext : Ext) (i : Int) (h : intOKb ext i = true) : IntOK ext i := by
+  unfold intOKb at h
+  simp only [Bool.and_eq_true, Bool.not_eq_true', beq_iff_eq] at h
+  exact ⟨h.1, h.2⟩
+
+theorem dtOKb_sound (ext : Ext) (tok : Str) (h : dtOKb ext tok = true) : DtOK ext tok := by
+  unfold dtOKb at h
+  simp only [Bool.and_eq_true, bne_iff_ne, ne_eq, beq_iff_eq, Bool.not_eq_true'] at h
+  obtain ⟨⟨⟨⟨h1, h2⟩, h3⟩, h4⟩, h5⟩ := h
+  refine ⟨h1, h2, ?_, h4, ?_⟩
+  · cases hd : dtText tok with
+    | nil => rw [hd] at h3; simp at h3
+    | cons c cs => rw [hd] at h3; exact ⟨c, cs, rfl, h3⟩
+  · cases hp : ext.parseDt (dtText tok) with
+    | ok t => rw [hp] at h5; simp at h5; rw [h5]
+    | valueError => rw [hp] at h5; simp at h5
+    | raises n => rw [hp] at h5; simp at h5
+
+theorem valOKb_sound (ext : Ext) (unit : Str) (pos : Nat) (v : Val) (h : valOKb ext unit pos v = true) :
+    ValOK ext unit pos v := by
+  unfold valOKb at h
+  unfold ValOK
+  by_cases h1 : unit = uText
+  · rw [if_pos h1] at h ⊢
+    cases v with
+    | text s =>
+      refine ⟨s, rfl, ?_⟩
+      intro hp hs
+      simp [hp, hs] at h
+    | _ => simp at h
+  · rw [if_neg h1] at h ⊢
+    by_cases h2 : unit = uOnoff
+    · rw [if_pos h2] at h ⊢
+      cases v with
+      | bool b => exact ⟨b, rfl⟩
+      | _ => simp at h
+    · rw [if_neg h2] at h ⊢
+      by_cases h3 : unit = uDatetime
+      · rw [if_pos h3] at h ⊢
+        cases v with
+        | dt t =>
+          refine ⟨t, rfl, ?_⟩
+          simp only [Bool.or_eq_true, beq_iff_eq] at h
+          rcases h with h | h
+          · exact Or.inl h
+          · exact Or.inr (dtOKb_sound ext t h)
+        | _ => simp at h
+      · rw [if_neg h3] at h ⊢
+        cases v with
+        | num t =>
+          left
+          refine ⟨t, rfl, ?_⟩
+          simp only [Bool.or_eq_true, beq_iff_eq] at h
+          rcases h with h | h
+          · exact Or.inl h
+          · exact Or.inr (numOKb_sound ext t h)
+        | int i => right; exact ⟨i, rfl, intOKb_sound ext i h⟩
+        | _ => simp at h
+
+/-- **the executable check implies the predicate of the theorem** -/
+theorem wfCheck_sound (ext : Ext) (sep : Char) (naRep : Str) (t : TableVal)
+    (h : wfCheck ext sep naRep t = true) : WF ext sep naRep t := by
+  unfold wfCheck at h
+  simp only [Bool.and_eq_true] at h
+  obtain ⟨⟨⟨⟨⟨⟨⟨⟨⟨⟨⟨⟨⟨⟨⟨h1, h2⟩, h3⟩, h4⟩, h5⟩, h6⟩, h7⟩, h8⟩, h9⟩, h10⟩, h11⟩, h12⟩, h13⟩, h14⟩, h15⟩, h16⟩ := h
+  refine ⟨naRepOKb_sound naRep h1, by simpa using h2, ?_, by simpa using h4, by simpa using h5,
+    by simpa using h6, plainTextb_sound _ h7, by simpa using h8, ?_, ?_, ?_, ?_, ?_, ?_, ?_, ?_⟩
+  · intro row hrow x hx
+    simp only [List.all_eq_true] at h3
+    have := h3 row hrow x hx
+    simp only [Bool.and_eq_true, Bool.not_eq_true', List.contains_eq_mem, decide_eq_false_iff_not] at this
+    exact this
+  · intro c hc
+    simp only [List.all_eq_true] at h9
+    have := h9 c hc
+    simp only [Bool.and_eq_true, Bool.not_eq_true', beq_iff_eq] at this
+    exact this
+  · intro c hc
+    simp only [List.all_eq_true] at h10
+    simpa using h10 c hc
+  · intro c hc
+    simp only [List.all_eq_true] at h11
+    simpa using h11 c hc
+  · intro p hp q hq
+    simp only [List.all_eq_true] at h12
+    exact valOKb_sound ext _ _ _ (h12 p hp q hq)
+  · intro c hc v hv tok hvt
+    simp only [List.all_eq_true] at h13
+    have := h13 c hc
+    unfold dtNaiveb at this
+    simp only [List.all_eq_true] at this
+    have := this v hv
+    subst hvt
+    simpa using this
+  · intro ht c hc
+    simp only [ht, Bool.false_or] at h14
+    rw [hc] at h14
+    simp only [Bool.and_eq_true, List.all_eq_true, List.mem_range] at h14
+    exact ⟨plainTextb_sound _ h14.1.1, plainTextb_sound _ h14.1.2,
+      fun i hi => plainTextb_sound _ (h14.2 i hi)⟩
+  · intro ht c hc
+    simp only [ht, Bool.not_true, Bool.false_or, List.all_eq_true] at h15
+    exact plainTextb_sound _ (h15 c hc)
+  · intro ht i hi
+    simp only [ht, Bool.not_true, Bool.false_or, List.all_eq_true, List.mem_range, List.any_eq_true,
+      Bool.not_eq_true'] at h16
+    exact h16 i hi
+
+end Pdt.C01
+
+namespace Pdt.C01
+open Pdt Pdt.Reader Pdt.Represent Pdt.Write
+
+/-! ## 10. non-vacuity: a concrete bundle inside the domain of the theorem -/
+
+/-- a concrete `ext`: decimal numerals "1.5" / "3" and one fixed-width ISO timestamp -/
+def exExt : Ext :=
+  ⟨fun s => if s = "1.5".toList then some "1.5".toList else if s = "3".toList then some "3.0".toList else none,
+   fun s => if s = "2020-01-02 03:04:05".toList then .ok "2020-01-02T03:04:05".toList else .valueError,
+   fun c => '0' ≤ c && c ≤ '9'⟩
+
+/-- row-wise: text, numeric (with a missing value), onoff, int -/
+def exT1 : TableVal :=
+  ⟨"farm animals".toList, ["your_farm".toList, "my_farm".toList], false,
+   [⟨"species".toList, "text".toList, [.text "chicken".toList, .text "a b".toList]⟩,
+    ⟨"weight".toList, "kg".toList, [.num "1.5".toList, .num "nan".toList]⟩,
+    ⟨"alive".toList, "onoff".toList, [.bool true, .bool false]⟩,
+    ⟨"n".toList, "-".toList, [.int 3, .int 3]⟩]⟩
+
+/-- transposed: datetime (with NaT) and text whose later rows may be empty; and a table without rows -/
+def exT2 : TableVal :=
+  ⟨"t".toList, ["all".toList], true,
+   [⟨"when".toList, "datetime".toList, [.dt "2020-01-02T03:04:05".toList, .dt "NaT".toList]⟩,
+    ⟨"note".toList, "text".toList, [.text "x".toList, .text [] ]⟩]⟩
+
+def exT3 : TableVal := ⟨"empty".toList, ["all".toList], false, [⟨"a".toList, "m".toList, []⟩]⟩
+
+theorem example_bundle_wf : ∀ t ∈ [exT1, exT2, exT3], WF exExt ';' "-".toList t := by
+  intro t ht
+  apply wfCheck_sound
+  simp only [List.mem_cons, List.mem_nil_iff, or_false] at ht
+  rcases ht with rfl | rfl | rfl <;> decide
+
+/-- the theorem applied to the concrete bundle: three tables come back -/
+example :
+    (readCsv exExt ';' (writeCsv ';' "-".toList [exT1, exT2, exT3])).blocks.map (fun d => (d.ty, d.val)) =
+      [exT1, exT2, exT3].map (fun t => (BT.table, Blocks.BlockVal.table (observe t))) :=
+  (csv_roundtrip exExt ';' "-".toList [exT1, exT2, exT3] example_bundle_wf).1
+
+/-- and the text is what `write_csv` prints -/
+example : writeCsv ';' "-".toList [exT3] = "**empty;\nall\na\nm\n\n\n".toList := by decide
+
+end Pdt.C01
